@@ -229,7 +229,7 @@ Definition check_str (v : jv) (r : repl) (space : jv) (o : sobs) (rt : robs) (m 
   sout_match e o && rt_match e rt &&
   match m with
   | None => true
-  | Some mo => sout_match (marshal_g false v) mo
+  | Some mo => sout_match (marshal v) mo
   end.
 
 Definition check_case (c : tcase) : bool :=
@@ -247,29 +247,17 @@ Fixpoint mismatch_from (i : N) (cs : list tcase) : list N :=
 Definition mismatch_ids := mismatch_from 0%N.
 
 (* what the model says; printed in replays and read by the known-finding recognisers:
-   EParse exception? result   |   EStr S-text I-text S-marshal I-marshal *)
+   EParse exception? result   |   EStr stringify-text marshal-text.
+   All recorded serialiser/parser defects have been repaired in /repo: the implementation-shaped variant I coincides
+   with the specification S, so only S is evaluated. *)
 Inductive exp :=
 | EParse (lone_surrogate_exception : bool) (r : option pval)
-| EStr (s i ms mi : sout)
+| EStr (s ms : sout)
 | ENone.
-
-(* I: the serialiser with the two recorded defects that change the text itself (not only its indentation):
-   a Symbol wrapper object is read as undefined (F-C19-4), and the entries of an allow-list replacer go through
-   a UTF-8 string, so their lone surrogates become U+FFFD (F-C19-5) *)
-Definition sanitize_entry (e : jv) : jv :=
-  match e with
-  | VStr s => VStr (sanitize_units s)
-  | VBoxStr s => VBoxStr (sanitize_units s)
-  | _ => e
-  end.
-Definition sanitize_repl (r : repl) : repl :=
-  match r with RList l => RList (map sanitize_entry l) | _ => r end.
-Definition stringify_I (v : jv) (r : repl) (space : jv) : sout := stringify_g true v (sanitize_repl r) space.
 
 Definition expected (c : tcase) : exp :=
   match c with
   | CParse t _ => EParse (lone_surrogate_input t) (parse_expected t)
-  | CStr v r space _ _ _ => EStr (stringify v r space) (stringify_I v r space)
-                                 (marshal_g false v) (marshal_g true v)
+  | CStr v r space _ _ _ => EStr (stringify v r space) (marshal v)
   | CFail => ENone
   end.
